@@ -147,8 +147,17 @@ class Inliner:
             return None
         if callee.qual in self.keep:
             return None
-        if any(isinstance(n, (ast.FunctionDef, ast.AsyncFunctionDef, ast.Lambda, ast.ClassDef)) for n in ast.walk(callee.node) if n is not callee.node):
-            return None  # factories: splicing them would move their closures into the caller
+        nested = [n for n in ast.walk(callee.node) if isinstance(n, (ast.FunctionDef, ast.AsyncFunctionDef, ast.Lambda, ast.ClassDef)) and n is not callee.node]
+        if nested:
+            # factories are not spliced (their closures would move into the caller); a helper with *local* helpers - nested
+            # defs that are only ever called, directly, inside it - is
+            if any(not isinstance(n, ast.FunctionDef) for n in nested):
+                return None
+            for n in nested:
+                loads = sum(1 for x in ast.walk(callee.node) if isinstance(x, ast.Name) and x.id == n.name and isinstance(x.ctx, ast.Load))
+                calls = sum(1 for x in ast.walk(callee.node) if isinstance(x, ast.Call) and isinstance(x.func, ast.Name) and x.func.id == n.name)
+                if loads != calls or n.decorator_list or any(isinstance(x, (ast.Yield, ast.YieldFrom, ast.Nonlocal)) for x in ast.walk(n)):
+                    return None
         decos = [d for d in callee.decorators if not d.endswith(("staticmethod", "classmethod"))]
         if decos:
             return None
@@ -932,7 +941,7 @@ def _propagate_copies(fn) -> int:
     if isinstance(fn, ast.Lambda):
         return 0
     n_done = 0
-    for _ in range(6):
+    for _ in range(60):  # (one copy per round)
         stores: dict[str, int] = {}
         for n in ast.walk(fn):
             if isinstance(n, ast.Name) and isinstance(n.ctx, (ast.Store, ast.Del)):
@@ -949,9 +958,21 @@ def _propagate_copies(fn) -> int:
                 for st in list(lst):
                     if isinstance(st, ast.Assign) and len(st.targets) == 1 and isinstance(st.targets[0], ast.Name) and isinstance(st.value, ast.Name):
                         a, b = st.targets[0].id, st.value.id
-                        if a == b or a in params or stores.get(a) != 1 or stores.get(b, 0) != 1 or b in params or a in nested_names \
+                        b_fixed = stores.get(b, 0) == 1 and b not in params or (b in params and stores.get(b, 0) == 0)
+                        if a == b or a in params or stores.get(a) != 1 or not b_fixed \
                                 or not (a.startswith("__") or b.startswith("__")):
                             continue  # (only temporaries made by the normalisations themselves are merged)
+                        if a in nested_names:
+                            # a nested helper reads the temporary: it is renamed there as well, unless one of the two names
+                            # is bound inside that helper (parameter or local of its own)
+                            clash = False
+                            for nfn in [n for n in ast.walk(fn) if isinstance(n, (ast.FunctionDef, ast.AsyncFunctionDef, ast.Lambda)) and n is not fn]:
+                                a_ = nfn.args
+                                bound_in = {x.arg for x in a_.posonlyargs + a_.args + a_.kwonlyargs} | {x.id for x in ast.walk(nfn) if isinstance(x, ast.Name) and isinstance(x.ctx, ast.Store)}
+                                if a in bound_in or b in bound_in:
+                                    clash = True
+                            if clash:
+                                continue
                         for x in ast.walk(fn):
                             if isinstance(x, ast.Name) and x.id == a and isinstance(x.ctx, ast.Load):
                                 x.id = b
